@@ -27,6 +27,8 @@ impl Vm {
         let mut cycles = 0;
         loop {
             cycles += 1;
+            #[cfg(feature = "verif")]
+            self.verif_tick();
             if cycles % 8192 == 0 {
                 self.run_gc();
             }
@@ -484,6 +486,9 @@ impl Vm {
             return;
         }
 
+        #[cfg(feature = "verif")]
+        self.verif_observe(crate::vm::verif::GcPhase::BeforeMark);
+
         self.globenv
             .iter_bindings()
             .for_each(|it| self.heap.mark(*it));
@@ -500,6 +505,9 @@ impl Vm {
         self.heap.mark(self.ip.0);
         self.heap.mark(self.ep);
         self.heap.sweep();
+
+        #[cfg(feature = "verif")]
+        self.verif_observe(crate::vm::verif::GcPhase::AfterSweep);
 
         // If after GC the heap utilization is still high, grow the heap.
         if (self.heap.used_size() as f64 / self.heap.capacity() as f64) > 0.75_f64 {
